@@ -109,3 +109,111 @@ package filesystem
 //@   noinline *
 //@   loop 0 step current-key-index-one: len(keys) == len(prev(keys)) + 1 && !itercalled(KeyStore.describeDir) ==> keys[len(keys)-1].Index == 1 && keys[len(keys)-1].State == keystore.StateCurrent
 //@   ensures err != nil ==> keys == nil
+
+// ---- keystore v1: every key is read (and generated) under the context of its own owner and purpose (C02, C07) ----
+// The generic readers decrypt with exactly the context they were given, whether the value comes from the file or the cache.
+//@ func (store *KeyStore) loadKeyAndCache(filename string, keyContext keystore.KeyContext, loadKeyCallback func() ([]byte, error)) (key []byte, err error)
+//@   props C02 C07
+//@   noinline *
+//@   ensures key-is-the-decryption: err == nil ==> sameslice(key, ret(KeyEncryptor.Decrypt)[0]) && ret(KeyEncryptor.Decrypt)[1] == nil
+//@   ensures whole-or-nothing: err != nil ==> key == nil
+//@   at call KeyEncryptor.Decrypt : assert recv == store.encryptor && arg[2] == keyContext && sameslice(arg[1], ret(dynamic.loadKeyCallback)[0]) && ret(dynamic.loadKeyCallback)[1] == nil
+//@   at call KeyEncryptor.Encrypt : assert recv == store.cacheEncryptor && arg[2] == keyContext && sameslice(arg[1], ret(KeyEncryptor.Decrypt)[0])
+//@   at call KeyStore.Add : assert arg[0] == filename && sameslice(arg[1], ret(KeyEncryptor.Encrypt)[0]) && ret(KeyEncryptor.Encrypt)[1] == nil
+
+//@ func (store *KeyStore) readEncryptedKey(filename string, keyContext keystore.KeyContext) (key []byte, err error)
+//@   props C02 C07
+//@   noinline *
+//@   at call KeyStore.loadKeyAndCache : assert arg[0] == filename && arg[1] == keyContext && !ret(KeyStore.Get)[1]
+//@   at call KeyEncryptor.Decrypt : assert recv == store.cacheEncryptor && arg[2] == keyContext && sameslice(arg[1], ret(KeyStore.Get)[0]) && ret(KeyStore.Get)[1]
+//@   at call KeyStore.Get : assert arg[0] == filename
+
+//@ func (store *KeyStore) getPrivateKeyByFilename(filename string, keyContext keystore.KeyContext) (key *keys.PrivateKey, err error)
+//@   props C02 C07 C17
+//@   noinline *
+//@   ensures unlocked: called(RWMutex.Lock) && called(RWMutex.Unlock)
+//@   ensures (err == nil) <==> (key != nil)
+//@   at call KeyStore.loadKeyAndCache : assert arg[0] == filename && arg[1] == keyContext && called(RWMutex.Lock)
+//@   at call KeyEncryptor.Decrypt : assert recv == store.cacheEncryptor && arg[2] == keyContext && called(RWMutex.Lock)
+
+//@ func (store *KeyStore) getPrivateKeysByFilenames(filenames []string, keyContext keystore.KeyContext) (out []*keys.PrivateKey, err error)
+//@   props C02 C07 C06
+//@   safety
+//@   noinline *
+//@   loop 0 step same-context-for-every-file: itercalled(KeyStore.getPrivateKeyByFilename) && argof(KeyStore.getPrivateKeyByFilename)[1] == keyContext && argof(KeyStore.getPrivateKeyByFilename)[0] == name
+//@   ensures whole-or-nothing: err != nil ==> out == nil
+//@   ensures one-key-per-file: err == nil ==> len(out) == len(filenames)
+
+//@ func (store *KeyStore) getSymmetricKeys(keyname string, keyContext keystore.KeyContext) (out [][]byte, err error)
+//@   props C02 C07 C06
+//@   safety
+//@   noinline *
+//@   loop 0 step same-context-for-every-file: itercalled(KeyStore.readEncryptedKey) && argof(KeyStore.readEncryptedKey)[1] == keyContext && argof(KeyStore.readEncryptedKey)[0] == path
+//@   ensures whole-or-nothing: err != nil ==> out == nil
+
+//@ func (store *KeyStore) getLatestSymmetricKey(keyname string, keyContext keystore.KeyContext) (key []byte, err error)
+//@   props C02 C07
+//@   noinline *
+//@   at call KeyStore.readEncryptedKey : assert arg[0] == keyname && arg[1] == keyContext
+//@   ensures err != nil ==> key == nil
+
+//@ func (store *KeyStore) generateAndSaveSymmetricKey(filename string, keyContext keystore.KeyContext) (err error)
+//@   props C07
+//@   noinline *
+//@   at call KeyEncryptor.Encrypt : assert recv == store.encryptor && arg[2] == keyContext && sameslice(arg[1], ret(keystore.GenerateSymmetricKey)[0]) && ret(keystore.GenerateSymmetricKey)[1] == nil
+//@   at call KeyStore.WritePrivateKey : assert arg[0] == filename && sameslice(arg[1], ret(KeyEncryptor.Encrypt)[0]) && ret(KeyEncryptor.Encrypt)[1] == nil
+
+// The public entry points build the context from the purpose of the key kind and the caller's own client id, and the
+// file name from the same id.
+//@ func (store *KeyStore) GetServerDecryptionPrivateKey(id []byte) (key *keys.PrivateKey, err error)
+//@   props C02 C07
+//@   noinline *
+//@   at call keystore.NewClientIDKeyContext : assert arg[0] == keystore.PurposeStorageClientPrivateKey && sameslice(arg[1], id)
+//@   at call GetServerDecryptionKeyFilename : assert sameslice(arg[0], id)
+//@   at call KeyStore.getPrivateKeyByFilename : assert arg[0] == ret(GetServerDecryptionKeyFilename)[0] && arg[1] == ret(keystore.NewClientIDKeyContext)[0]
+
+//@ func (store *KeyStore) GetServerDecryptionPrivateKeys(id []byte) (out []*keys.PrivateKey, err error)
+//@   props C02 C07 C06
+//@   noinline *
+//@   at call keystore.NewClientIDKeyContext : assert arg[0] == keystore.PurposeStorageClientPrivateKey && sameslice(arg[1], id)
+//@   at call GetServerDecryptionKeyFilename : assert sameslice(arg[0], id)
+//@   at call KeyStore.GetHistoricalPrivateKeyFilenames : assert arg[0] == ret(GetServerDecryptionKeyFilename)[0]
+//@   at call KeyStore.getPrivateKeysByFilenames : assert sameslice(arg[0], ret(KeyStore.GetHistoricalPrivateKeyFilenames)[0]) && arg[1] == ret(keystore.NewClientIDKeyContext)[0]
+
+//@ func (store *KeyStore) GetClientIDSymmetricKey(id []byte) (key []byte, err error)
+//@   props C02 C07
+//@   noinline *
+//@   at call keystore.NewClientIDKeyContext : assert arg[0] == keystore.PurposeStorageClientSymmetricKey && sameslice(arg[1], id)
+//@   at call getClientIDSymmetricKeyName : assert sameslice(arg[0], id)
+//@   at call KeyStore.getLatestSymmetricKey : assert arg[0] == ret(getClientIDSymmetricKeyName)[0] && arg[1] == ret(keystore.NewClientIDKeyContext)[0]
+
+//@ func (store *KeyStore) GetClientIDSymmetricKeys(id []byte) (out [][]byte, err error)
+//@   props C02 C07 C06
+//@   noinline *
+//@   at call keystore.NewClientIDKeyContext : assert arg[0] == keystore.PurposeStorageClientSymmetricKey && sameslice(arg[1], id)
+//@   at call getClientIDSymmetricKeyName : assert sameslice(arg[0], id)
+//@   at call KeyStore.getSymmetricKeys : assert arg[0] == ret(getClientIDSymmetricKeyName)[0] && arg[1] == ret(keystore.NewClientIDKeyContext)[0]
+
+//@ func (store *KeyStore) GetHMACSecretKey(id []byte) (key []byte, err error)
+//@   props C02 C07 C09
+//@   noinline *
+//@   at call keystore.NewClientIDKeyContext : assert arg[0] == keystore.PurposeSearchHMAC && sameslice(arg[1], id)
+//@   at call getHmacKeyFilename : assert sameslice(arg[0], id)
+//@   at call KeyStore.Get : assert arg[0] == ret(getHmacKeyFilename)[0]
+//@   at call KeyStore.loadKeyAndCache : assert arg[0] == ret(getHmacKeyFilename)[0] && arg[1] == ret(keystore.NewClientIDKeyContext)[0] && !ret(KeyStore.Get)[1]
+//@   at call KeyEncryptor.Decrypt : assert recv == store.cacheEncryptor && arg[2] == ret(keystore.NewClientIDKeyContext)[0] && sameslice(arg[1], ret(KeyStore.Get)[0]) && ret(KeyStore.Get)[1]
+
+//@ func (store *KeyStore) GenerateClientIDSymmetricKey(id []byte) (err error)
+//@   props C07
+//@   noinline *
+//@   at call keystore.NewClientIDKeyContext : assert arg[0] == keystore.PurposeStorageClientSymmetricKey && sameslice(arg[1], id)
+//@   at call KeyStore.generateAndSaveSymmetricKey : assert arg[1] == ret(keystore.NewClientIDKeyContext)[0] && arg[0] == ret(KeyStore.GetPrivateKeyFilePath)[0]
+//@   at call KeyStore.GetPrivateKeyFilePath : assert arg[0] == ret(getClientIDSymmetricKeyName)[0]
+//@   at call getClientIDSymmetricKeyName : assert sameslice(arg[0], id)
+
+//@ func (store *KeyStore) SaveDataEncryptionKeys(id []byte, keypair *keys.Keypair) (err error)
+//@   props C07
+//@   noinline *
+//@   at call keystore.NewClientIDKeyContext : assert arg[0] == keystore.PurposeStorageClientPrivateKey && sameslice(arg[1], id)
+//@   at call KeyStore.SaveKeyPairWithFilename : assert arg[0] == keypair && arg[1] == ret(GetServerDecryptionKeyFilename)[0] && arg[2] == ret(keystore.NewClientIDKeyContext)[0]
+//@   at call GetServerDecryptionKeyFilename : assert sameslice(arg[0], id)
